@@ -124,6 +124,12 @@ fn replay_on_real(r: &mut Real, hist: &Value) -> bool {
             r.request("textDocument/codeLens", json!({"textDocument": {"uri": uri(f)}})).is_some()
         } else if let Some(f) = e.get("formatting").and_then(|x| x.as_str()) {
             r.request("textDocument/formatting", json!({"textDocument": {"uri": uri(f)}, "options": {"tabSize": 4, "insertSpaces": true}})).is_some()
+        } else if let Some(f) = e.get("documentSymbol").and_then(|x| x.as_str()) {
+            r.request("textDocument/documentSymbol", json!({"textDocument": {"uri": uri(f)}})).is_some()
+        } else if let Some(f) = e.get("semanticTokens").and_then(|x| x.as_str()) {
+            r.request("textDocument/semanticTokens/full", json!({"textDocument": {"uri": uri(f)}})).is_some()
+        } else if e.get("workspaceSymbol").is_some() {
+            r.request("workspace/symbol", json!({"query": ""})).is_some()
         } else {
             true
         };
@@ -151,6 +157,12 @@ fn replay_in_process(s: &mut Server, hist: &Value) -> bool {
             s.request("textDocument/codeLens", json!({"textDocument": {"uri": uri(f)}})).is_ok()
         } else if let Some(f) = e.get("formatting").and_then(|x| x.as_str()) {
             s.request("textDocument/formatting", json!({"textDocument": {"uri": uri(f)}, "options": {"tabSize": 4, "insertSpaces": true}})).is_ok()
+        } else if let Some(f) = e.get("documentSymbol").and_then(|x| x.as_str()) {
+            s.request("textDocument/documentSymbol", json!({"textDocument": {"uri": uri(f)}})).is_ok()
+        } else if let Some(f) = e.get("semanticTokens").and_then(|x| x.as_str()) {
+            s.request("textDocument/semanticTokens/full", json!({"textDocument": {"uri": uri(f)}})).is_ok()
+        } else if e.get("workspaceSymbol").is_some() {
+            s.request("workspace/symbol", json!({"query": ""})).is_ok()
         } else {
             true
         };
